@@ -34,6 +34,9 @@ func runC06(o *out, r *rng, thorough bool, rp string) {
 		} else if i%10 == 4 {
 			res = splitRoundsScenario(r, viol)
 			o.Dist["split-rounds-scenario"]++
+		} else if i%10 == 2 {
+			res = lateStarterRoundsScenario(r, viol)
+			o.Dist["late-starter-rounds-scenario"]++
 		} else {
 			res = simScenario(r, viol)
 		}
